@@ -21,6 +21,7 @@ REQUIRED_THEOREMS = [
     "Cv.C06.predict_setCoef_spec", "Cv.C06.initialWorking_textbook", "Cv.C06.initialIntercept_perm",
     "Cv.C06.fit_last_pass", "Cv.C06.gaussian_pass_solves", "Cv.C06.gaussian_fit_normal_equations",
     "Cv.C06.covariance_isInverse", "Cv.C06.fit_ok_converged_ne_zero", "Cv.C06.hasConverged_zero",
+    "Cv.C06.gaussian_fit_normal_equations_solve",
 ]
 RULE = ("six families x designs n 20..120 (quick) / 20..500 (thorough), p 1..6 with standardised random, polynomial and "
         "indicator columns x {no weights, random weights, constant c in {2,3,.5,.25,7,10}, piecewise constant, all-equal-but-one} x {no offset, offset} x alpha in {0, 0.1, 1, 10} x tolerance "
@@ -1060,7 +1061,13 @@ def check_fit(mp, i, line, rep, fails):
     dbound = C_DEV * (gdn * step + T) + C_ROUND * dfloor
     stat("dev", float(derr / (gdn * mp.sqrt(T + F) + T + dfloor + tiny)), key0)
     stat("dev_stale_over_tol", float((derr - C_ROUND * dfloor) / (tol * (abs(A["dev"]) + tiny))) if derr > C_ROUND * dfloor else 0.0, key0)
-    if derr > dbound:
+    wdev = None
+    if w is not None and any(v != 1.0 for v in w):
+        # with prior weights the consistent deviance is sum_i w_i d_i (open finding glm:weights:unweighted-deviance: the source
+        # stores the unweighted sum).  Clause 3 accepts EITHER, so that a repair of the crate is not reported as a violation.
+        wdev = sum(mp.mpf(wi) * udev(mp.mpf(yy), m) for wi, yy, m in zip(w, y, A["mu"]))
+        wscale = max(abs(mp.mpf(wi)) for wi in w) + 1
+    if derr > dbound and not (wdev is not None and abs(mp.mpf(r["dev"]) - wdev) <= wscale * dbound):
         fails.append(Failure(i, "deviance:" + key0, "reported deviance %r differs from the family deviance at the fitted means %r by %.3e > %.3e" % (
             r["dev"], float(A["dev"]), float(derr), float(dbound)), f2h(float(A["dev"]))))
     # ---- 3b. OPEN FINDING glm:weights:unweighted-deviance (known_findings.txt): with prior weights the deviance that is
@@ -1070,9 +1077,7 @@ def check_fit(mp, i, line, rep, fails):
     #          and differs from the weighted one.  Any other deviance discrepancy is the `deviance:` failure of clause 3.
     #          The dependent accessors (dispersion, aic, bic, covariance, standard errors) are judged against the stored
     #          deviance / reported dispersion (clauses 4, 5), so the same root cause raises no second failure.
-    if derr <= dbound and w is not None and any(v != 1.0 for v in w):
-        wdev = sum(mp.mpf(wi) * udev(mp.mpf(yy), m) for wi, yy, m in zip(w, y, A["mu"]))
-        wscale = max(abs(mp.mpf(wi)) for wi in w) + 1
+    if derr <= dbound and wdev is not None:
         if abs(mp.mpf(r["dev"]) - wdev) > wscale * dbound + mp.mpf("1e-6") * abs(wdev):
             fails.append(Failure(i, "glm:weights:unweighted-deviance",
                                  "with weights the stored deviance %r is the unweighted sum; the weighted deviance sum w_i d_i is %r "
@@ -1587,3 +1592,48 @@ NOT_PROVED = list(NOT_PROVED) + ["for the canonical families (Gaussian, Bernoull
 PROOF_MODULES = PROOF_MODULES + [m for m in ['Compute.Lemmas.FlModelGrid', 'Compute.Props.RoundingGrid'] if m not in PROOF_MODULES]
 REQUIRED_THEOREMS = REQUIRED_THEOREMS + [t for t in ['Cv.Rounding7.Examples3.stepI', 'Cv.RoundingGrid.Step.stepG', 'Cv.RoundingGrid.Step.etaGv', 'Cv.FlModel.grid_abs_sub_le', 'Cv.FlModel.grid_idem', 'Cv.FlModel.grid_mono', 'Cv.FlModel.grid_rnd_one', 'Cv.FlModel.grid_rnd_natCast', 'Cv.FlModel.grid_rnd_dyadic', 'Cv.FlModel.f64grid_u', 'Cv.FlModel.f64grid_mono'] if t not in REQUIRED_THEOREMS]
 NOT_PROVED = list(NOT_PROVED) + ['the scoring-step rounding theorems are stated for p >= 2 coefficients (p = 1 not covered); non-vacuity at u > 0 is shown on a complete evaluated step whose non-zero step is absorbed (1 % model and f64grid) and where the exact score is non-zero; for the log link the non-zero-variance hypothesis is automatic only absent exp underflow', 'FlModel has a genuine instance, FlModel.grid p (radix 2, p digits, round to nearest, unbounded exponent; f64grid has u = 2^-53), proved to satisfy the standard model and to be idempotent and monotone, with integers <= 2^p and dyadics exact (Lemmas/FlModelGrid); headline rounding theorems are instantiated on it (Props/RoundingGrid); overflow and underflow remain outside the model']
+
+
+# --- FINAL claim lists (second review): one coherent literal block; it replaces every earlier assignment / rewrite above
+NOT_PROVED = [
+    "that the code's stopping test (relative change of the penalised deviance below the tolerance) implies a small score: false "
+    "in general; decided per run by the mpmath stationarity oracle on the returned coefficients",
+    "about the RETURNED coefficients there are theorems only for the unpenalised Gaussian family: gaussian_fit_normal_equations "
+    "(for ANY solver satisfying SolvesExactly) and gaussian_fit_normal_equations_solve (for the model of the code's own Cv.solve, "
+    "under Regular = SqrtOk and LuPivotsNonzero of the returned information matrix): every pass is then an exact weighted "
+    "least-squares solve. For ridge-Gaussian fits and the five other families the fixed-point theorems say where the iteration "
+    "stops moving, not that the returned iterate is there: oracle only. The ridge fixed point IS the ridge solution with "
+    "unpenalised intercept (gaussian_normal_equations); apply_ddbeta_penalty adding alpha to the intercept diagonal changes the "
+    "convergence rate only",
+    "the stored deviance and information matrix are ONE SCORING STEP STALE relative to the returned coefficients (fit_last_pass "
+    "states exactly this): the clause `deviance at the fitted means` holds up to the last step; the oracle allows the last-step "
+    "bound and observes at most ~36 * tol * deviance (ridge fits)",
+    "solver and inverse correctness are used only under Regular (SqrtOk and LuPivotsNonzero; C01): fixed-point, Gaussian "
+    "normal-equation and covariance_isInverse theorems for Cv.solve / Cv.invertMatrix carry that hypothesis (not composed with "
+    "regular_of_det for the GLM); on a singular information matrix the field model divides by a zero pivot and nothing is claimed",
+    "floating-point rounding of the whole iteration is not bounded by a theorem (bit-exact tie + oracle). What IS proved (other "
+    "owner: Props/Rounding7, Rounding8, for p >= 2 coefficients only; p = 1 is inside the quantifier and covered by tie + oracle "
+    "only): one scoring step in the standard model is a perturbed penalised weighted normal system with explicit bounds "
+    "(scoringStep_system), and for the canonical families a step that leaves beta unchanged IN FLOATING POINT bounds the exact "
+    "penalised score (fixed_point_exact_score). That hypothesis is not the code's deviance-based stopping test, so the distance of "
+    "the RETURNED coefficients from the exact score equations remains oracle-only",
+    "OPEN FINDING glm:weights:unweighted-deviance (known_findings.txt; printed as KNOWN-FINDING on every run): with prior weights "
+    "the stored deviance is the unweighted sum while score, information and n = round(sum w) are weighted, so dispersion, aic/bic "
+    "and the standard errors of the Gaussian / QuasiPoisson / Gamma families are inconsistent with the weights; the oracle accepts "
+    "the unweighted sum (known finding) or the weighted sum (a repaired crate) and judges the dependent accessors against the "
+    "stored deviance",
+    "observation, not a finding: penalized_deviance adds alpha*||beta_1..||_2 (unsquared) although the ridge penalty matching the "
+    "gradient alpha*beta is alpha*||beta||^2; it only drives the stopping test and is modelled as it is (opt-in check "
+    "C06_SQUARED_PENALTY=1)",
+    "d_inv_link is evaluated through the rounded mean: accurate to eps*mu absolute, not relative, as mu -> 1 (oracle bound says so)",
+    "fixed_point_iff_score writes the score with the totalised quotient dmu/var and has no var != 0 guard; with exp abstract the "
+    "textbook canonical score sum x (y - mu) is implied only through canonical_variance_eq_dInvLink where var != 0",
+    "for fractional Bernoulli responses 0 < y < 1 (outside the quantifier: responses are 0/1) the source omits the saturated-model "
+    "term of the textbook binomial deviance (bernoulli_fractional_gap)",
+]
+ASSUMPTIONS = ASSUMPTIONS + [
+    "has_converged at a previous penalised deviance of exactly -0.0 with a non-zero current one: the source evaluates "
+    "|loss| / (-0.0) = -inf < tol (true), the model answers false; a deviance of exactly -0.0 is not reached by any generated "
+    "request (it would show as a correspondence difference)",
+]
+
